@@ -138,6 +138,11 @@ func (c *Cluster) transfer(n *Node, target uint64, timeout time.Duration) error 
 	}
 	c.track(t, n, oid, "transfer")
 	if !n.wait(t) {
+		if !n.isGone() {
+			// neither done nor refused a minute after it was submitted, with
+			// a timeout of at most some dozen heartbeat timeouts
+			c.rc.emitNode(n.dir, &ev.Rec{K: "transfer-unanswered", OpID: oid, Tgt: target, Note: timeout.String()})
+		}
 		return fmt.Errorf("gone")
 	}
 	err := c.adminRet(n, "transfer", oid, t, func(r *ev.Rec) { r.Tgt = target })
